@@ -300,6 +300,57 @@ def unresolved_names(tree, unres):
     return out
 
 
+def vmodel_target_decls(tree):
+    """binding identifiers declared inside the value of a v-model / v-models attribute: the
+    target expression is emitted twice (as the value and inside the listener), so whatever it
+    declares - an arrow's parameters, a function body's variables - is legitimately declared
+    twice in the output"""
+    out = set()
+    def attr_name(n):
+        nm = n.get("name") or {}
+        if nm.get("type") == "JSXNamespacedName":
+            nm = nm.get("namespace") or {}
+        return nm.get("value") or ""
+    def collect(x):
+        if isinstance(x, list):
+            for y in x:
+                collect(y)
+        elif isinstance(x, dict):
+            t = x.get("type")
+            if t in ("ArrowFunctionExpression", "FunctionExpression", "FunctionDeclaration"):
+                ids = []
+                pattern_idents(x.get("params"), ids, [])
+                for i in ids:
+                    out.add(key_of(i))
+            if t == "VariableDeclarator":
+                ids = []
+                pattern_idents(x.get("id"), ids, [])
+                for i in ids:
+                    out.add(key_of(i))
+            if t in ("FunctionDeclaration", "FunctionExpression", "ClassDeclaration", "ClassExpression") and is_ident(x.get("identifier")):
+                out.add(key_of(x["identifier"]))
+            if t == "CatchClause":
+                ids = []
+                pattern_idents(x.get("param"), ids, [])
+                for i in ids:
+                    out.add(key_of(i))
+            for v in x.values():
+                collect(v)
+    def go(x):
+        if isinstance(x, list):
+            for y in x:
+                go(y)
+        elif isinstance(x, dict):
+            if x.get("type") == "JSXAttribute":
+                base = attr_name(x).split(":")[0].split("_")[0]
+                if base in ("v-model", "vModel", "v-models", "vModels"):
+                    collect(x.get("value"))
+            for v in x.values():
+                go(v)
+    go(tree)
+    return out
+
+
 def analyse(output, input_tree, unres, pragma_names):
     """returns (errors, known): lists of (kind, name)"""
     sc = Scope()
@@ -310,9 +361,10 @@ def analyse(output, input_tree, unres, pragma_names):
     si = Scope()
     if input_tree is not None:
         si.walk(input_tree, set(), set())
+        twice = vmodel_target_decls(input_tree)
         for k, c in sc.decl.items():
             # (the empty context 0 is no source identifier's: the resolver marks every one of them)
-            if 0 < k[1] < GEN and c > si.decl.get(k, 0):
+            if 0 < k[1] < GEN and c > si.decl.get(k, 0) and k not in twice:
                 errors.append(("added-declaration-without-fresh-context", k[0]))
     for k, c in sc.assigned.items():
         # a generated temporary carries ONE value: the slot function that reads it later must find
